@@ -173,6 +173,10 @@ Definition hunk_header (h : hunk) : str :=
   ++ range_txt (h_ns h) (count_of (h_new h)) ++ s_hh_close
   ++ (match h_sec h with [] => [] | s => [c_sp] ++ s end).
 
+(* the header without the function-context text *)
+Definition hh_text (os oc ns nc : N) : str :=
+  s_hh_open ++ range_txt os oc ++ s_hh_plus ++ range_txt ns nc ++ s_hh_close.
+
 Definition hunk_lines (h : hunk) : list str :=
   hunk_header h
   :: map (fun l => c_dash :: l) (h_old h)
@@ -567,3 +571,39 @@ Definition Known_C01_fmt (d : list file_diff) : bool :=
   || existsb (fun f => live f && (k2_path (fd_path f) || k3_path (fd_path f))) d.
 
 Definition path_ok (p : list N) : bool := forallb is_byte p && negb (k3_path p).
+
+Definition ascii (c : N) : bool := c <? 128.
+Definition ascii_paths (d : list file_diff) : bool :=
+  forallb (fun f => forallb ascii (fd_path f)) d.
+
+(* ------------------------------------------------------------------ witnesses *)
+
+Definition mk_h (os : N) (old : list (list N)) (ns : N) (new : list (list N)) : hunk :=
+  mkHunk os old false ns new false [].
+Definition mk_f (p : list N) (hs : list hunk) : file_diff :=
+  mkFile p false false [49;48;48;54;52;52] [49;97;50;98;51;99;52] [53;100;54;101;55;102;56] hs.
+
+Definition t_weird : list N := [43;43;32;119;101;105;114;100].          (* ++ weird *)
+Definition t_later : list N := [97;105;32;108;97;116;101;114].          (* ai later *)
+Definition p_f : list N := [102;46;116;120;116].                        (* f.txt *)
+
+(* the reproduced two-hunk example *)
+Definition wit_k1 : list file_diff := [mk_f p_f [mk_h 1 [] 2 [t_weird]; mk_h 4 [] 6 [t_later]]].
+Definition wit_k2 : list file_diff := [mk_f [116;114;97;105;108;32] [mk_h 0 [] 1 [t_later]]].   (* trail + space *)
+Definition wit_k3 : list file_diff := [mk_f [98;101;108;7] [mk_h 0 [] 1 [t_later]]].            (* bel BEL *)
+Definition wit_panic : list file_diff := [mk_f p_f [mk_h 0 [] 1 [[43;43;32;34]]]].              (* ++ dq *)
+
+
+(* a document inside the theorem: quoted path (space, double quote, backslash, e-acute as two bytes),
+   path with a space only (TAB after the label), a path beginning with a/, a deleted file, a new file
+   without final newline, a file section without hunks, a deletion-only hunk, body lines that look
+   like diff syntax, a CRLF line, a function-context text containing @@ *)
+Definition wit_ok : list file_diff :=
+  [ mk_f [97;32;34;92;195;169] [mk_h 3 [[45;45;32;121]] 3 [[64;64;32;45;49;32;43;49;32;64;64]; [43;32;120]];
+                                mkHunk 9 [[111]] true 10 [[92;32;78;111]; [99;13]] true [102;110;32;64;64;32;120]];
+    mk_f [120;32;121] [mk_h 5 [[100]] 4 []];
+    mk_f [97;47;98] [mk_h 0 [] 1 [[43;43]; [43;43;43]]];
+    mkFile [100] false true [49;48;48;54;52;52] [49;97] [48;48] [mk_h 1 [[122]] 0 []];
+    mkFile [110] true false [49;48;48;54;52;52] [48;48] [49;97] [mkHunk 0 [] false 1 [[110;101;119]] true []];
+    mk_f [101] [] ].
+
